@@ -122,6 +122,38 @@ func LockVia(try func() bool, lock func()) {
 	}
 }
 
+// LockHook tells the simulator which locks the running task holds (key = the
+// address of the mutex; delta +1 after an acquisition, -1 after a release). The
+// simulator never unwinds a task at a yield inside a critical section (the data
+// the lock protects, and the lock itself, may outlive the run in package-level
+// variables), and releases what a task still holds when it had to be unwound
+// while it was blocked.
+var LockHook func(key interface{}, try func() bool, unlock func(), delta int)
+
+// LockVia2 is LockVia with the bookkeeping for LockHook.
+//
+//go:noinline
+func LockVia2(key interface{}, try func() bool, lock func(), unlock func(), read bool) {
+	LockVia(try, lock)
+	if h := LockHook; h != nil {
+		d := +1
+		if read {
+			d = +2 // a read lock of an RWMutex
+		}
+		h(key, try, unlock, d)
+	}
+}
+
+// UnlockVia replaces x.Unlock() / x.RUnlock().
+//
+//go:noinline
+func UnlockVia(key interface{}, unlock func()) {
+	unlock()
+	if h := LockHook; h != nil {
+		h(key, nil, nil, -1)
+	}
+}
+
 type onceState struct {
 	running, done bool
 }
@@ -888,4 +920,20 @@ func DebugChans() string {
 		s += fmt.Sprintf(" [%p cap=%d buf=%d recvq=%d sendq=%d perm=%v closed=%v]", c.key, c.capa, len(c.buf), len(c.recvq), len(c.sendq), c.perm, c.closed)
 	}
 	return s
+}
+
+// SetFinalizer is runtime.SetFinalizer. A finalizer runs on a goroutine of the
+// runtime, at a moment the collector chooses: neither can be owned. Under the
+// simulator finalizers are not registered at all - "there is no guarantee that
+// finalizers will run" (package runtime), so a program whose finalizers never
+// run is one of its legal executions. The free-running race lane keeps them.
+var FinalizersDropped int64
+
+//go:noinline
+func SetFinalizer(obj interface{}, finalizer interface{}) {
+	if ForceSwitch == nil && !PreMain {
+		runtime.SetFinalizer(obj, finalizer)
+		return
+	}
+	FinalizersDropped++
 }
